@@ -229,9 +229,14 @@ class NaiveForecaster(_OptionalForecastingHorizonMixin, _BaseWindowForecaster):
                         f"window must not be a missing value."
                     )
                 else:
-                    # formula for slope
-                    slope = (last_window[-1] - last_window[0]) / (
-                        self.window_length_ - 1
+                    # formula for slope: line through the end points of the available
+                    # window, which can be shorter than `window_length_` for in-sample
+                    # predictions near the start of the series
+                    n_window = len(last_window)
+                    slope = (
+                        (last_window[-1] - last_window[0]) / (n_window - 1)
+                        if n_window > 1
+                        else 0.0
                     )
 
                     # get zero-based index by subtracting the minimum
